@@ -47,9 +47,21 @@ CHECKS.update({
  "C31": ("twinsim", "fault_enumeration", "System A is one Evm reused for the whole history (valid, rejected, reverting, halting transactions through transact / transact_commit / preverify_transaction / transact_preverified, transact without commit, spec changes, block advances); system B takes its database out of the Evm and builds a brand-new Evm around it before every op. Results, returned states and the final committed state must be equal. Database faults are injected at drawn call indices and, for marked ops, enumerated over every database call index of the op (the whole history is re-run once per index).", E1_NOTE + " Enumeration is capped at 48 call indices per marked op.", TWIN_TECH + "; fault enumeration over every database call index of marked ops", "5 C31"),
 })
 
+
+E3_NOTE = "Trusted: SimDisk/FaultyDb, the reference appliers (apply_evm_state, apply_changeset, undo_group: ~150 lines), normalisation of plain state (zero slots dropped; with state clear an empty account without storage equals no account). Histories are real EVM output. Known findings D12 (codeless nonce-0 accounts with storage) and D13 (revert over a destroying group with OriginalValuesKnown::Yes) are listed in known_findings.json."
+E3_TECH = "deterministic simulation: seeded block histories through State/BundleState over a simulated disk with scheduled merges, flushes, crashes/restarts and injected database faults, against a reference plain state"
+CHECKS.update({
+ "C15": ("statesim", "exploration", "After every transition group every account, slot and code of the universe read through the State must equal the reference plain state that received the same committed EvmStates (independent applier), under both state-clear settings, with increment_balances/drain_balances between transactions, lazy code and empty-as-None database answers; the same transactions on Evm<CacheDB> must give equal execution results. Database faults hit transactions (retried) and increment_balances (failed calls must leave no trace); crashes drop the State, which is rebuilt over the durable disk.", E3_NOTE, E3_TECH, "5 C15"),
+ "C16": ("statesim", "exploration", "At every flush point (scheduled take_bundle; several per history) pre-state + to_plain_state(OriginalValuesKnown::Yes) and + to_plain_state(No) applied by an independent applier must both equal the reference post-state; the changeset then becomes durable and the State continues on top of it; after a crash the lost groups are re-executed over the durable disk and must give the same results.", E3_NOTE, E3_TECH, "5 C16"),
+ "C17": ("statesim", "exploration", "With one merge per group, the plain reverts are applied backwards group by group from the post-state (wiped: unlisted slots come back from the pre-bundle disk; otherwise unchanged; None: delete) and must reproduce the recorded reference snapshot before every group; bundle.revert(j) followed by to_plain_state (Yes and No) must describe the snapshot after n-j groups for every j, including j > n.", E3_NOTE, E3_TECH, "5 C17"),
+ "C18": ("statesim", "exploration", "For a drawn split point i (including 0 and n) bundle A is built over the pre-state, flushed, bundle B built by a fresh State over the flushed disk, and A.extend(B) must give the post-state changeset and a revert walk that reproduces every snapshot; take_n_reverts(m) on the monolithic bundle must return exactly the first m groups (walk with the rest from S_n to S_m, then with the detached ones to S_0); B.prepend_state(A) must still describe the post-state (newer values survive).", E3_NOTE, E3_TECH, "5 C18"),
+ "C19": ("statesim", "exploration", "A State over the pre-state disk with bundle A preloaded (with_bundle_prestate) and a State over the disk with A's changeset applied must answer every read equally, give equal execution results for the remaining groups, and both final changesets must lead to the reference post-state. A comes from the simulated history (destroyed, re-created, in-memory accounts), not from hand-written data.", E3_NOTE, E3_TECH, "5 C19"),
+})
+
 CHECKS["C06"] = ("journalsim+txsim",) + CHECKS["C06"][1:]
 
 ENGINES = [
+ {"name": "statesim", "path": "sim/src/e3_state.rs", "serves_properties": ["C15","C16","C17","C18","C19"], "kind_free_text": "E3: State/BundleState pipeline over a simulated disk with merge/flush/crash schedule"},
  {"name": "twinsim", "path": "sim/src/e1_twin.rs", "serves_properties": ["C22","C28","C31"], "kind_free_text": "E1 twin modes: same history on two differently built systems"},
  {"name": "validsim", "path": "sim/src/e1_valid.rs", "serves_properties": ["C02"], "kind_free_text": "E1 validity mode: boundary-value transactions vs executable validity model, no-trace twin"},
  {"name": "collidesim", "path": "sim/src/e1_collide.rs", "serves_properties": ["C21"], "kind_free_text": "E1 collision matrix over layer stacks"},
